@@ -376,8 +376,8 @@ pub(crate) mod verif_merkle {
         let (tree, root) = build::<N, LL>(version, &leaves);
         let mut p2 = tree.get_paths(idx);
         p2.extend_from_slice(&extra);
+        vcover!(true, "COVER:forged-path-built");
         let r = tree.root_from_paths(idx, &leaves[idx], &p2);
-        vcover!(true, "COVER:verifier-returned");
         vassert!(!same(&r, &root), "VERIF:C04:path-with-stray-trailing-bytes-does-not-recompute-root");
         core::mem::forget(r);
         core::mem::forget(p2);
@@ -394,7 +394,7 @@ pub(crate) mod verif_merkle {
             }
         };
     }
-    //@ family c04_partial props=C04 mode=panics-ok mod=merkle::verif_merkle
+    //@ family c04_partial props=C04 mode=panics-ok mod=merkle::verif_merkle must_cover=COVER:forged-path-built
     //@ harness c04_partial_google_n1_plus1 tier=quick shape="classic, 1 leaf, empty path extended by 1 arbitrary byte"
     c04_partial!(c04_partial_google_n1_plus1, 1, 1, Version::Google, 0);
     //@ harness c04_partial_ietf_n2_plus16 tier=quick shape="IETF, 2 leaves, path extended by 16 arbitrary bytes (half a hash value)"
